@@ -42,6 +42,9 @@ type Profile struct {
 	DupLabels  bool
 	NoStaleCtx bool // predicates/state blocks do not observe c.text / c.pos (avoid Q-STALE-CTX)
 	NoFFFDLit  bool // no literal contains U+FFFD (avoid Q-LIT-EOF)
+	CharAlt    int  // percentage of choices built from single-character literals and small classes over a shared alphabet
+	ThrowIdiom int  // percentage of rules built as labelled-failure idioms (guarded items in sequence / nested)
+	ScanPct    int  // percentage of grammars wrapped in a scanning start rule S <- (v:R0 w:. {..} / .)*
 }
 
 var AllTmpls = func() []Tmpl {
@@ -78,7 +81,7 @@ func defaultWeights() [18]int {
 func BaseProfile(name string) *Profile {
 	return &Profile{Name: name, MaxRules: 4, MaxDepth: 4, W: defaultWeights(), Blocks: true,
 		Tmpls: AllTmpls, MemoPct: 30, BudgetPct: 5, EntryPct: 8, Inputs: 4, MaxInput: 10, NonAscii: true,
-		IgnoreCase: 15, AllowInv: 30, Invalid: 10, FoldSafe: true, NoStaleCtx: false}
+		IgnoreCase: 15, AllowInv: 30, Invalid: 10, FoldSafe: true, NoStaleCtx: false, ScanPct: 20}
 }
 
 type gctx struct {
@@ -255,6 +258,12 @@ func (g *gctx) genExpr(depth int) *Node {
 		for i := 0; i < cnt; i++ {
 			kid := g.genExpr(depth + 1)
 			if g.p.Blocks && g.pct(35) && kid.K != KLab {
+				if g.pct(25) && kid.K != KOpt {
+					// an optional labelled item: the label is bound to nil when the item is absent
+					o := g.newNode(KOpt)
+					o.Kids = []*Node{kid}
+					kid = o
+				}
 				l := g.newNode(KLab)
 				l.Label = labelNames[g.r.Intn(len(labelNames))]
 				l.Kids = []*Node{kid}
@@ -272,6 +281,31 @@ func (g *gctx) genExpr(depth int) *Node {
 	case KAlt:
 		n := g.newNode(KAlt)
 		cnt := 2 + g.r.Intn(2)
+		if g.pct(g.p.CharAlt) {
+			// "0" / [012] / [2345]: what the grammar optimizer merges into one class (with repeated characters)
+			alpha := []string{"a", "b", "c", "0", "1", "+"}
+			for i := 0; i < cnt+1; i++ {
+				if g.pct(40) {
+					l := g.newNode(KLit)
+					l.Lit = alpha[g.r.Intn(len(alpha))]
+					n.Kids = append(n.Kids, l)
+					continue
+				}
+				c := g.newNode(KCls)
+				var sb strings.Builder
+				sb.WriteString("[")
+				for j := 1 + g.r.Intn(3); j > 0; j-- {
+					sb.WriteString(alpha[g.r.Intn(len(alpha))])
+				}
+				if g.pct(30) {
+					sb.WriteString([]string{"a-c", "0-9", "b-x"}[g.r.Intn(3)])
+				}
+				sb.WriteString("]")
+				c.Cls = sb.String()
+				n.Kids = append(n.Kids, c)
+			}
+			return n
+		}
 		for i := 0; i < cnt; i++ {
 			n.Kids = append(n.Kids, g.genExpr(depth+1))
 		}
@@ -315,6 +349,126 @@ func (g *gctx) genExpr(depth int) *Node {
 		return n
 	}
 	panic("unreachable")
+}
+
+// ---------- labelled-failure idioms ----------
+var idiomLabels = []string{"e1", "e2", "e3"}
+
+func (g *gctx) lit(sv string) *Node {
+	n := g.newNode(KLit)
+	n.Lit = sv
+	return n
+}
+
+func (g *gctx) throwOf(l string) *Node {
+	n := g.newNode(KThrow)
+	n.Label = l
+	return n
+}
+
+// a recovery expression: consumes something, nothing, fails, or throws again
+func (g *gctx) genRecov() *Node {
+	switch g.r.Intn(8) {
+	case 0, 1:
+		return g.newNode(KAny)
+	case 2, 3:
+		return g.lit(asciiAlpha[g.r.Intn(4)])
+	case 4:
+		return g.lit("")
+	case 5:
+		n := g.newNode(KNot)
+		n.Kids = []*Node{g.lit("")} // always fails
+		return n
+	case 6:
+		return g.throwOf(idiomLabels[g.r.Intn(len(idiomLabels))])
+	default:
+		n := g.newNode(KAct)
+		n.Kids = []*Node{g.newNode(KAny)}
+		n.Cid = g.newBlock(KAct)
+		return n
+	}
+}
+
+// guarded item: (lit / throw / call / nested guarded) //{labels} recov
+func (g *gctx) genGuarded(depth int) *Node {
+	body := g.newNode(KAlt)
+	body.Kids = append(body.Kids, g.lit(asciiAlpha[g.r.Intn(4)]))
+	for i := g.r.Intn(3); i > 0; i-- {
+		switch x := g.r.Intn(10); {
+		case x < 5:
+			body.Kids = append(body.Kids, g.throwOf(idiomLabels[g.r.Intn(len(idiomLabels))]))
+		case x < 7 && depth < 2:
+			body.Kids = append(body.Kids, g.genGuarded(depth+1))
+		case x < 9:
+			r := g.newNode(KRef)
+			r.Ref = fmt.Sprintf("R%d", g.r.Intn(g.nrules))
+			body.Kids = append(body.Kids, r)
+		default:
+			sq := g.newNode(KSeq)
+			sq.Kids = []*Node{g.lit(asciiAlpha[g.r.Intn(4)]), g.throwOf(idiomLabels[g.r.Intn(len(idiomLabels))])}
+			body.Kids = append(body.Kids, sq)
+		}
+	}
+	n := g.newNode(KRec)
+	n.Kids = []*Node{body, g.genRecov()}
+	n.Labels = []string{idiomLabels[g.r.Intn(len(idiomLabels))]}
+	if g.pct(35) {
+		n.Labels = append(n.Labels, idiomLabels[g.r.Intn(len(idiomLabels))])
+	}
+	return n
+}
+
+// a rule made of guarded items in sequence, optionally repeated / under a predicate, with a fallback alternative
+func (g *gctx) genThrowRule() *Node {
+	seq := g.newNode(KSeq)
+	for i := 2 + g.r.Intn(3); i > 0; i-- {
+		var it *Node
+		switch x := g.r.Intn(10); {
+		case x < 6:
+			it = g.genGuarded(0)
+		case x < 7:
+			it = g.throwOf(idiomLabels[g.r.Intn(len(idiomLabels))])
+		case x < 8:
+			it = g.newNode(KStar)
+			it.Kids = []*Node{g.genGuarded(1)}
+			sq := g.newNode(KSeq)
+			sq.Kids = []*Node{it.Kids[0], g.lit(asciiAlpha[g.r.Intn(4)])} // progress inside the repetition
+			it.Kids[0] = sq
+		case x < 9:
+			it = g.newNode(KAnd)
+			it.Kids = []*Node{g.genGuarded(1)}
+		default:
+			it = g.lit(asciiAlpha[g.r.Intn(4)])
+		}
+		if g.p.Blocks && g.pct(30) {
+			l := g.newNode(KLab)
+			l.Label = labelNames[g.r.Intn(len(labelNames))]
+			l.Kids = []*Node{it}
+			it = l
+		}
+		seq.Kids = append(seq.Kids, it)
+	}
+	var e *Node = seq
+	if g.p.Blocks && g.pct(50) {
+		a := g.newNode(KAct)
+		a.Kids = []*Node{e}
+		a.Cid = g.newBlock(KAct)
+		e = a
+	}
+	if g.pct(50) {
+		alt := g.newNode(KAlt)
+		fb := g.newNode(KStar)
+		fb.Kids = []*Node{g.newNode(KAny)}
+		alt.Kids = []*Node{e, fb}
+		e = alt
+	}
+	if g.pct(30) {
+		outer := g.newNode(KRec)
+		outer.Kids = []*Node{e, g.genRecov()}
+		outer.Labels = []string{idiomLabels[g.r.Intn(len(idiomLabels))]}
+		e = outer
+	}
+	return e
 }
 
 func (g *gctx) genCond(params []string, allowState, predCtx bool) Cond {
@@ -455,13 +609,20 @@ func (g *gctx) derive(n *Node, rules map[string]*Rule, depth int, sb *strings.Bu
 	case KAny:
 		sb.WriteString(g.alphaRune())
 	case KSeq:
-		for _, k := range n.Kids {
+		for i, k := range n.Kids {
+			if i > 0 && g.pct(7) {
+				continue // near-sentence: one item of the sequence is missing, the rest of the input goes on
+			}
 			g.derive(k, rules, depth+1, sb)
 		}
 	case KAlt:
 		g.derive(n.Kids[g.r.Intn(len(n.Kids))], rules, depth+1, sb)
 	case KStar:
-		for i := g.r.Intn(3); i > 0; i-- {
+		cnt := g.r.Intn(3)
+		if n.Many {
+			cnt = 2 + g.r.Intn(4)
+		}
+		for i := cnt; i > 0; i-- {
 			g.derive(n.Kids[0], rules, depth+1, sb)
 		}
 	case KPlus:
@@ -526,6 +687,17 @@ func (g *gctx) genInput(rules []*Rule, rmap map[string]*Rule, entry string) []by
 		}
 		s = sb.String()
 	}
+	if strings.Contains(s, ";") && g.pct(40) {
+		// drop closing tokens: the construct that needs them fails after its operands ran, the input goes on
+		var sb strings.Builder
+		for _, c := range s {
+			if c == ';' && g.pct(60) {
+				continue
+			}
+			sb.WriteRune(c)
+		}
+		s = sb.String()
+	}
 	if g.pct(g.p.Invalid) {
 		ib := invalidBytes[g.r.Intn(len(invalidBytes))]
 		i := 0
@@ -534,8 +706,12 @@ func (g *gctx) genInput(rules []*Rule, rmap map[string]*Rule, entry string) []by
 		}
 		s = s[:i] + ib + s[i:]
 	}
-	if len(s) > g.p.MaxInput+6 {
-		s = s[:g.p.MaxInput+6]
+	lim := g.p.MaxInput + 6
+	if rules[0].Name == "S" {
+		lim = 30
+	}
+	if len(s) > lim {
+		s = s[:lim]
 	}
 	return []byte(s)
 }
@@ -581,6 +757,10 @@ func (g *gctx) genLRShape(rules []*Rule) {
 	for i := 0; i < nrec; i++ {
 		s := g.newNode(KSeq)
 		s.Kids = []*Node{lab("x", mkRef(self)), mkLit(ops[i]), lab("y", mkRef(t.Name))}
+		if g.pct(50) {
+			// a closing token after the operand: a growth attempt can fail after the operand (and its code blocks) ran
+			s.Kids = append(s.Kids, mkLit(";"))
+		}
 		var a *Node = s
 		if g.p.Blocks && g.pct(80) {
 			a = g.newNode(KAct)
@@ -591,6 +771,15 @@ func (g *gctx) genLRShape(rules []*Rule) {
 	}
 	alt.Kids = append(alt.Kids, mkRef(t.Name))
 	e.Expr = alt
+	if g.p.Blocks && g.pct(60) {
+		// the classic operand: one character with an action (which may return an error or change the state)
+		c := g.newNode(KCls)
+		c.Cls = "[0-9ab]"
+		a := g.newNode(KAct)
+		a.Kids = []*Node{c}
+		a.Cid = g.newBlock(KAct)
+		t.Expr = a
+	}
 	// make sure T does not refer back to E at its first position: simplest is to forbid E in T entirely unless parenthesised by a literal
 	walkNodes(t.Expr, func(n *Node) {
 		if n.K == KRef && (n.Ref == e.Name || n.Ref == self) {
@@ -618,11 +807,56 @@ func GenGrammar(p *Profile, seed int64) (rules []*Rule, blocks map[int]*Block, g
 		if g.pct(15) {
 			r.Display = fmt.Sprintf("rule %d", i)
 		}
-		r.Expr = g.genExpr(1)
+		if p.Throw && g.pct(p.ThrowIdiom) {
+			r.Expr = g.genThrowRule()
+		} else {
+			r.Expr = g.genExpr(1)
+		}
 		rules = append(rules, r)
 	}
 	if p.LR && g.pct(85) {
 		g.genLRShape(rules)
+	}
+	if p.LR && p.Blocks && len(rules) >= 2 && g.pct(30) {
+		// S <- first:E rest:(op T)* !. : operands are matched again right after the left-recursive rule gave up
+		mk := func(k Kind) *Node { return g.newNode(k) }
+		ref := func(nm string) *Node { n := mk(KRef); n.Ref = nm; return n }
+		lab := func(name string, kid *Node) *Node { l := mk(KLab); l.Label = name; l.Kids = []*Node{kid}; return l }
+		op := mk(KLit)
+		op.Lit = "+"
+		pair := mk(KSeq)
+		pair.Kids = []*Node{op, ref("R1")}
+		rest := mk(KStar)
+		rest.Kids = []*Node{pair}
+		rest.Many = true
+		seq := mk(KSeq)
+		seq.Kids = []*Node{lab("v", ref("R0")), lab("w", rest)}
+		act := mk(KAct)
+		act.Kids = []*Node{seq}
+		act.Cid = g.newBlock(KAct)
+		rules = append([]*Rule{{Name: "S", Expr: act}}, rules...)
+	} else if p.Blocks && g.pct(p.ScanPct) {
+		// the scanning idiom: the first generated rule is tried at every position of the input, so every rule is
+		// entered many times at the same nesting depth, after earlier successes and failures
+		lab := func(name string, kid *Node) *Node {
+			l := g.newNode(KLab)
+			l.Label = name
+			l.Kids = []*Node{kid}
+			return l
+		}
+		ref := g.newNode(KRef)
+		ref.Ref = "R0"
+		seq := g.newNode(KSeq)
+		seq.Kids = []*Node{lab("v", ref), lab("w", g.newNode(KAny))}
+		act := g.newNode(KAct)
+		act.Kids = []*Node{seq}
+		act.Cid = g.newBlock(KAct)
+		alt := g.newNode(KAlt)
+		alt.Kids = []*Node{act, g.newNode(KAny)}
+		star := g.newNode(KStar)
+		star.Kids = []*Node{alt}
+		star.Many = true
+		rules = append([]*Rule{{Name: "S", Expr: star}}, rules...)
 	}
 	for _, r := range rules {
 		r.Expr = normalize(r.Expr)
